@@ -65,11 +65,27 @@ theorem inv_cancelOpen {p : PS} (h : Inv p) (req : Nat) :
 theorem inv_accept {p : PS} (h : Inv p) : Inv { p with a := (appAccept p.a).1 } :=
   inv_of_silent h (appAccept_eff _ _)
 
-theorem inv_sendDgram {p : PS} (h : Inv p) (d : Dgram) : Inv { p with a := (appSendDgram p.a d).1 } :=
-  inv_of_silent h (appSendDgram_eff _ _ _)
+/-- … with a ghost update that leaves the stream logs alone. -/
+theorem inv_of_silent_g {p : PS} (h : Inv p) {e' : EP} (s : Eff (fun _ => False) p.a e') (g' : Ghost)
+    (hw : g'.wlog = p.ga.wlog) (hr : g'.rlog = p.ga.rlog) (he : g'.eof = p.ga.eof) :
+    Inv { p with a := e', ga := g' } := by
+  have hgf : GhostFresh e' g' := fun k hk => by rw [hw, hr, he]; exact h.ghA k (Nat.le_trans s.len hk)
+  exact inv_of_eff (g' := g') (ba' := p.ba) h s (Or.inl rfl) (fun x _ k _ => by rw [hw, hr, he]; exact ⟨rfl, rfl, rfl⟩) hgf
+    (fun x hx => absurd hx id)
 
-theorem inv_recvDgram {p : PS} (h : Inv p) : Inv { p with a := (appRecvDgram p.a).1 } :=
-  inv_of_silent h (appRecvDgram_eff _ _)
+theorem inv_sendDgram {p : PS} (h : Inv p) (d : Dgram) :
+    Inv { p with a := (appSendDgram p.a d).1,
+                 ga := match (appSendDgram p.a d).2 with
+                       | .unit => { p.ga with dsent := p.ga.dsent ++ [d] }
+                       | _ => p.ga } := by
+  refine inv_of_silent_g h (appSendDgram_eff _ _ _) _ ?_ ?_ ?_ <;> (cases (appSendDgram p.a d).2 <;> rfl)
+
+theorem inv_recvDgram {p : PS} (h : Inv p) :
+    Inv { p with a := (appRecvDgram p.a).1,
+                 ga := match (appRecvDgram p.a).2 with
+                       | .dgram d => { p.ga with drecv := p.ga.drecv ++ [d] }
+                       | _ => p.ga } := by
+  refine inv_of_silent_g h (appRecvDgram_eff _ _) _ ?_ ?_ ?_ <;> (cases (appRecvDgram p.a).2 <;> rfl)
 
 theorem inv_unpark {p : PS} (h : Inv p) : Inv { p with a := Mux.unpark p.a } :=
   inv_of_silent h (unpark_eff _ _ h.runA.muxAlive)
